@@ -23,7 +23,8 @@ def _norm(g: dict) -> dict:
     # (and HOW an unsuccessful compile fails may depend on lint on/off and on API vs command
     # line -- e.g. the deep-nesting RecursionError of the known finding surfaces in lint for B
     # and in the renderer for A: unsuccessful goldens only have to agree on being unsuccessful)
-    return {"outcome": "ok" if o == "ok" else "failed", "outputs": g["outputs"] if o == "ok" else {}}
+    ok = oracles.succeeded(o)
+    return {"outcome": "ok" if ok else "failed", "outputs": g["outputs"] if ok else {}}
 
 
 class Goldens:
@@ -38,25 +39,37 @@ class Goldens:
         self.stats = {"goldens": 0, "pure_rechecks": 0, "golden_processes": 0}
 
     def get(self, seed: int, keys: dict) -> dict:
+        """Goldens for `keys`. Everything a golden process depends on is derived from the
+        *content* of the batch it computes (sorted compile keys), never from the seed whose
+        thread happens to compute it first: the verdict for a key does not depend on timing.
+        (Two threads may compute the same key concurrently; both results are stored under one
+        lock acquisition and, on a deterministic compiler, are equal.)"""
         with self.lock:
             need = {k: v for k, v in keys.items() if k not in self.cache}
         if need:
-            ra = self._run(need, "A", derive(seed, "golden", "A") % 1000003 + 1, aslr=False)
-            rb = self._run(need, "B", derive(seed, "golden", "B") % 1000003 + 7, aslr=True)
-            pick = sorted(need)[derive(seed, "golden", "pick") % len(need)]
-            rp = self._run({pick: need[pick]}, "A", derive(seed, "golden", "P") % 1000003 + 13, aslr=True)
+            ident = "|".join(sorted(need))
+            hs = {"A": derive(0, "golden", "A", ident) % 1000003 + 1, "B": derive(0, "golden", "B", ident) % 1000003 + 7, "P": derive(0, "golden", "P", ident) % 1000003 + 13}
+            ra = self._run(need, "A", hs["A"], aslr=False)
+            rb = self._run(need, "B", hs["B"], aslr=True)
+            pick = sorted(need)[derive(0, "golden", "pick", ident) % len(need)]
+            rp = self._run({pick: need[pick]}, "A", hs["P"], aslr=True)
+            fresh = {}
+            for k in need:
+                a, b = ra[k], rb[k]
+                g = dict(a)
+                if _norm(a) != _norm(b):
+                    g["disagree"] = {"A": a, "B": b}
+                if k == pick and _norm(rp[k]) != _norm(a):
+                    g["disagree"] = {"A": a, "P": rp[k]}
+                if g.get("disagree"):
+                    g["batch"] = sorted(need)  # what the golden processes compiled together
+                fresh[k] = g
             with self.lock:
                 self.stats["goldens"] += len(need)
                 self.stats["pure_rechecks"] += 1
                 self.stats["golden_processes"] += 3
-                for k in need:
-                    a, b = ra[k], rb[k]
-                    g = dict(a)
-                    if _norm(a) != _norm(b):
-                        g["disagree"] = {"A": a, "B": b}
-                    if k == pick and _norm(rp[k]) != _norm(a):
-                        g["disagree"] = {"A": a, "P": rp[k]}
-                    self.cache[k] = g
+                for k, g in fresh.items():
+                    self.cache.setdefault(k, g)
         with self.lock:
             return {k: self.cache[k] for k in keys}
 
@@ -80,33 +93,62 @@ def judge(prop: str, plan: dict, res: dict, goldens):
     return oracles.c18_violations(plan, res, goldens)
 
 
+STATS = {"worker_retries": 0, "wall_stalls_seen": 0, "wall_stalls_unconfirmed": 0, "wall_stalls_confirmed": 0}
+_STATS_LOCK = threading.Lock()
+
+
+def _bump(name: str) -> None:
+    with _STATS_LOCK:
+        STATS[name] += 1
+
+
+def plan_timeout(plan: dict) -> float:
+    """Hard limit of one worker, scaled with the plan (a very long history legitimately runs
+    for minutes; the per-operation limits are the step budget and the CPU-time backstop)."""
+    n = len(plan.get("ops") or [])
+    return 600.0 + 0.5 * n
+
+
+def _wall_stalls(res: dict):
+    return [(rec["i"], rec["op"]) for rec in res["history"] if rec.get("outcome") == "hang:wall"]
+
+
 def execute_checked(plan: dict):
-    """Run a plan; classify worker-level failures. Returns (result|None, violations)."""
-    r = runner.run_plan(plan, timeout=900)
-    if r["status"] == "ok":
-        return r["result"], []
-    # confirmation re-run before anything is reported
-    r2 = runner.run_plan(plan, timeout=1800)
-    if r2["status"] == "ok":
-        raise runner.HarnessFailure("worker failed once (%s) and succeeded on re-run: not deterministic" % r["status"])
-    if r2["status"] == "timeout":
-        raise runner.HarnessFailure("worker timed out twice (hard wall limit); cannot attribute to an operation")
-    return None, [{"sig": "process-died:rc=%s" % r2.get("rc"), "op_index": -1, "op": "?", "outcome": "died", "msg": (r2.get("stderr") or "")[-600:]}]
+    """Run a plan; classify worker-level failures. Returns (result|None, violations).
 
-
-def confirm_wall(plan: dict, v: dict):
-    """A wall-clock stall is only believed if the operation stalls again in an
-    isolated re-run with 3x the wall limit (there, the step budget may trip
-    first: then it is reported as the deterministic hang:steps)."""
-    p2 = copy.deepcopy(plan)
-    p2["wall_factor"] = 3
-    r = runner.run_plan(p2, timeout=3600)
+    * a worker that dies or has to be killed is re-run; only if it ends the same way again,
+      *inside the same call into the system under test* (write-ahead markers), is that a
+      violation attributed to the operation -- anything else is a failure of the machinery;
+    * an operation stopped by the real-time/CPU-time backstop (hang:wall) is only believed if
+      it stalls again at 3x the limit; otherwise the result of that re-run (same plan, same
+      steps) is the result -- machine load must neither raise an alarm nor break the check."""
+    t = plan_timeout(plan)
+    r = runner.run_plan(plan, timeout=t)
     if r["status"] != "ok":
-        return None
-    for rec in r["result"]["history"]:
-        if rec["i"] == v["op_index"] and rec.get("outcome") in ("hang:wall", "hang:steps"):
-            return rec["outcome"] + "@" + rec["op"]
-    return None
+        _bump("worker_retries")
+        r2 = runner.run_plan(plan, timeout=2 * t)
+        if r2["status"] != "ok":
+            if r2.get("inside") and r2.get("inside") == r.get("inside") and r2["status"] == r["status"]:
+                idx, label = r2["inside"]
+                what = "hang:hard" if r2["status"] == "timeout" else "process-died:rc=%s" % r2.get("rc")
+                return None, [{"sig": "%s@%s" % (what, label.split(" ")[0]), "op_index": int(idx), "op": label.split(" ")[0], "outcome": r2["status"], "msg": (r2.get("stderr") or "")[-600:]}]
+            raise runner.HarnessFailure("worker %s twice outside any call into the system under test (%r / %r): %s" % (r2["status"], r.get("inside"), r2.get("inside"), (r2.get("stderr") or "")[-1500:]))
+        r = r2  # e.g. an out-of-memory kill under load: the re-run is the execution
+    res = r["result"]
+    stalls = _wall_stalls(res)
+    if stalls:
+        _bump("wall_stalls_seen")
+        p2 = copy.deepcopy(plan)
+        p2["wall_factor"] = 3
+        r3 = runner.run_plan(p2, timeout=3 * t)
+        if r3["status"] != "ok":
+            raise runner.HarnessFailure("confirmation run of a wall-clock stall %s: %s" % (r3["status"], (r3.get("stderr") or "")[-800:]))
+        if _wall_stalls(r3["result"])[:1] == stalls[:1]:
+            _bump("wall_stalls_confirmed")
+        else:
+            _bump("wall_stalls_unconfirmed")
+        res = r3["result"]
+    return res, []
 
 
 def run_seed(prop: str, seed: int, gold: Goldens):
@@ -118,7 +160,7 @@ def run_seed(prop: str, seed: int, gold: Goldens):
     for k, g in goldens.items():
         if g.get("disagree"):
             out["violations"].append(
-                {"sig": "golden-disagree", "op_index": -1, "op": "golden", "outcome": "", "key": k, "detail": json.dumps(g["disagree"], sort_keys=True)[:600], "plan": None, "request": keys[k]}
+                {"sig": "golden-disagree", "op_index": -1, "op": "golden", "outcome": "", "key": k, "detail": json.dumps(g["disagree"], sort_keys=True)[:600], "plan": None, "request": keys[k], "batch_requests": {b: keys[b] for b in g.get("batch", []) if b in keys} or None}
             )
     res0, vs = execute_checked(plan0)
     phases = [("fault-free", plan0, res0, vs)]
@@ -142,20 +184,18 @@ def run_seed(prop: str, seed: int, gold: Goldens):
             if v["sig"].startswith("HARNESS:"):
                 raise runner.HarnessFailure("seed %d: %s" % (seed, v["sig"]))
             v = dict(v)
-            if v["sig"].startswith("hang:wall"):
-                confirmed = confirm_wall(plan, v)
-                if confirmed is None:
-                    raise runner.HarnessFailure("seed %d: unconfirmed wall-clock stall at op %d" % (seed, v["op_index"]))
-                v["sig"] = confirmed
             v["plan"] = plan
             v["phase"] = name
             if prop == "C18" and v.get("key"):
                 v["golden"] = goldens.get(v["key"])
+                v["request"] = keys.get(v["key"])
             checked.append(v)
         out["violations"].extend(checked)
         out["execs"].append({"phase": name, "res": summarize(res, compared, plan) if res is not None else None, "digest": runner.digest(res) if res is not None else None})
     out["wall_s"] = time.monotonic() - t0
     out["nkeys"] = len(keys)
+    out["knob_off"] = not plan0.get("knob_cache", True)
+    out["hashseed"] = plan0.get("hashseed")
     return out
 
 
@@ -256,16 +296,16 @@ def judge_full(prop: str, plan: dict, goldens):
     """Run a plan and return every violation signature it shows (used by the
     minimiser and by replay). For C09 the silent-failure oracle needs the
     fault-free twin of the plan as well."""
-    r = runner.run_plan(plan, timeout=900)
-    if r["status"] != "ok":
-        return ["process-died:rc=%s" % r.get("rc")] if r["status"] == "died" else ["timeout"], []
-    vs, _ = judge(prop, plan, r["result"], goldens or {})
+    res, wvs = execute_checked(plan)
+    if res is None:
+        return [v["sig"] for v in wvs], wvs
+    vs, _ = judge(prop, plan, res, goldens or {})
     if prop == "C09" and plan.get("faults"):
         p0 = dict(plan)
         p0["faults"] = []
-        r0 = runner.run_plan(p0, timeout=900)
-        if r0["status"] == "ok":
-            vs = vs + oracles.c09_silent_failures(r0["result"], r["result"])
+        res0, _ = execute_checked(p0)
+        if res0 is not None:
+            vs = vs + oracles.c09_silent_failures(res0, res)
     return [v["sig"] for v in vs], vs
 
 
@@ -382,6 +422,7 @@ def write_replay(prop: str, v: dict, minimised: bool) -> str:
         "golden": v.get("golden"),
         "key": v.get("key"),
         "request": v.get("request"),
+        "batch_requests": v.get("batch_requests"),
     }
     with open(path, "w") as f:
         json.dump(doc, f, indent=1, sort_keys=True)
@@ -392,13 +433,28 @@ def replay(prop: str, path: str):
     with open(path) as f:
         doc = json.load(f)
     if doc.get("plan") is None:
-        # golden-disagree: recompute the two goldens
+        # golden-disagree: recompute the goldens of the same batch (same keys compiled together,
+        # hence the same hash seeds, ASLR settings and order as in the failing run)
         g = Goldens()
-        res = g.get(0, {doc["key"]: doc["request"]})
+        batch = doc.get("batch_requests") or {doc["key"]: doc["request"]}
+        res = g.get(0, batch)
         bad = bool(res[doc["key"]].get("disagree"))
         return bad, doc["signature"], [doc["signature"]] if bad else []
-    goldens = {doc["key"]: doc["golden"]} if doc.get("key") and doc.get("golden") else {}
+    goldens = {}
+    if doc.get("key") and doc.get("request"):
+        # the golden is recomputed from the tree as it is now (a stored hash of generated text
+        # would make the replay "reproduce" for ever after any legitimate change of the output)
+        goldens = Goldens().get(0, {doc["key"]: doc["request"]})
+        if goldens[doc["key"]].get("disagree"):
+            return doc["signature"] == "golden-disagree", doc["signature"], ["golden-disagree"]
+    elif doc.get("key") and doc.get("golden"):
+        goldens = {doc["key"]: doc["golden"]}
     sigs, _ = judge_full(prop, doc["plan"], goldens)
+    if doc.get("signature_regex"):
+        # (a defect that returns with another innermost frame is the same defect)
+        import re
+
+        return any(re.search(doc["signature_regex"], s_) for s_ in sigs), doc["signature"], sigs
     return doc["signature"] in sigs, doc["signature"], sigs
 
 
@@ -431,10 +487,9 @@ def single_fault_sweep(prop: str, seeds, jobs: int):
     bases = []
     for seed in seeds:
         plan0 = sweep_plan(seed)
-        r0 = runner.run_plan(plan0)
-        if r0["status"] != "ok":
-            continue
-        res0 = r0["result"]
+        res0, vs0 = execute_checked(plan0)
+        if res0 is None:
+            raise runner.HarnessFailure("single-fault sweep: the fault-free base build of seed %d did not run: %r" % (seed, vs0))
         bases.append((plan0, res0))
         for rec in res0["history"]:
             for n, sk in enumerate(rec.get("seams") or [], start=1):
@@ -450,11 +505,11 @@ def single_fault_sweep(prop: str, seeds, jobs: int):
         plan0, res0 = bases[bi]
         p1 = dict(plan0)
         p1["faults"] = [f]
-        r = runner.run_plan(p1)
-        if r["status"] != "ok":
-            return [{"sig": "process-%s" % r["status"], "op_index": f["op"], "op": "?", "outcome": "", "plan": p1, "phase": "sweep"}], 0
-        vs = oracles.c09_violations(p1, r["result"]) + oracles.c09_cli_rules(p1, r["result"]) + oracles.c09_silent_failures(res0, r["result"])
-        fired = sum(len(rec.get("fired") or []) for rec in r["result"]["history"])
+        res1, wvs = execute_checked(p1)
+        if res1 is None:
+            return [dict(v, plan=p1, phase="sweep") for v in wvs], 0
+        vs = oracles.c09_violations(p1, res1) + oracles.c09_cli_rules(p1, res1) + oracles.c09_silent_failures(res0, res1)
+        fired = sum(len(rec.get("fired") or []) for rec in res1["history"])
         for v in vs:
             v["plan"] = p1
             v["phase"] = "sweep"
@@ -483,7 +538,7 @@ def simfs_fidelity():
 
     from .simfs import SimFS
 
-    top = tempfile.mkdtemp(prefix="verif-fid-")
+    top = tempfile.mkdtemp(prefix="verif-fid-", dir=runner.tmp_dir())
     try:
         real = os.path.join(top, "w")
         os.makedirs(os.path.join(real, "p", "out"))
@@ -670,7 +725,7 @@ def simfs_fidelity2():
     tw = Tripwires()
     with Window(fs, tw):
         sim = _fs_scenario()
-    top = tempfile.mkdtemp(prefix="verif-fid2-")
+    top = tempfile.mkdtemp(prefix="verif-fid2-", dir=runner.tmp_dir())
     cwd = os.getcwd()
     try:
         real = os.path.join(top, "w")
@@ -740,7 +795,8 @@ def evidence(prop, tier, base_seed, done, selftest_info, wall, t_runs, nviol, kn
     ncompared = 0
     maxfrac = 0.0
     execs = 0
-    knob_off = 0
+    knob_off = sum(1 for r in done if r.get("knob_off"))
+    hashseeds = {r.get("hashseed") for r in done}
     phases = {"fault-free": 0, "faulted": 0}
     for r in done:
         for e in r["execs"]:
@@ -792,12 +848,14 @@ def evidence(prop, tier, base_seed, done, selftest_info, wall, t_runs, nviol, kn
         "probes": probes,
         "tripwire_reads": trip,
         "restarts": restarts,
+        "memo_knob_off_runs": knob_off,
+        "distinct_hashseeds": len(hashseeds),
         "budget_max_fraction": round(maxfrac, 4),
         "selftest": selftest_info,
         "known_findings_seen": known_sigs,
         "components": {
             "real": ["bitproto lexer/parser/AST/linter/renderers/_main from /repo working tree", "ply", "CPython 3.12"],
-            "stub": ["file system (SimFS)", "process exit (os._exit -> SimExit)", "stderr/stdout capture", "clocks/urandom/pid (tripwires)", "language server (represented by its parse_string call pattern)"],
+            "stub": ["file system below the buffered layer (SimFS: directory tree, inodes, descriptors, raw file reads/writes; the buffering and text layers on top are CPython's own io classes)", "process exit (os._exit -> SimExit)", "stderr/stdout capture", "clocks/urandom/pid (tripwires)", "language server (represented by its parse_string call pattern)"],
         },
         "samples": samples,
     }
